@@ -885,6 +885,12 @@ pub fn hostile<const N: usize>(cfg: QCfg, id: String, mut rng: Rng) -> Case {
         if live != want_live {
             c.fail(format!("[C07] {} ranges shared with the device, the caller's outstanding chains account for {}", live, want_live));
         }
+        // the driver's own indices count its own submissions / consumptions: nothing the device
+        // writes (in particular into the driver-owned avail.idx) may influence them
+        let (_, _, ai, lu) = l.q.verif_state();
+        if ai != (l.added % 65536) as u16 || lu != (l.popped % 65536) as u16 {
+            c.fail(format!("[C07] driver indices (avail {}, last_used {}) depend on what the device wrote into driver-owned memory: {} submissions, {} consumptions were made", ai, lu, l.added, l.popped));
+        }
         for v in hal::with(|h| std::mem::take(&mut h.violations)) {
             c.fail(format!("[C07] ledger: {}", v));
         }
